@@ -4,6 +4,8 @@ package updog
 
 import (
 	"sync"
+
+	"github.com/RoaringBitmap/roaring"
 )
 
 // Hooks for the verification harness under /verif. Compiled only with -tags verif.
@@ -52,3 +54,11 @@ func VerifLRUSizes(c *LRUCache) (cur, max uint64) { return c.curSize, c.maxSize 
 
 // VerifIndexNextRowID exposes the row universe size of an open index.
 func VerifIndexNextRowID(idx *Index) uint32 { return idx.nextRowID }
+
+// VerifLRUPeek returns the bitmap stored under a resident key without touching recency or counters.
+func VerifLRUPeek(c *LRUCache, key uint64) *roaring.Bitmap {
+	if e, ok := c.entries[key]; ok {
+		return e.Value.(*lruCacheItem).bm
+	}
+	return nil
+}
